@@ -155,7 +155,7 @@ def gen_history(rng, tier, flavour=None):
             d = rng.choice((5000, 100000))
         if backward and rng.random() < 0.3:
             d = -rng.randrange(1, T + 5)
-        now += d
+        now = max(now + d, 10)     # before 1970 is not a meaningful clock; the network storage treats negative deadlines as absent
         if attacker and rng.random() < 0.3:
             b = 9
             r = rng.random()
